@@ -66,7 +66,7 @@ def _nodes(gj):
         elif n["op"] == "Loop":
             attrs["body"] = _graph(n["subs"][0], "body" + str(n["id"]))
         op = "Identity" if n["op"] == "IdentityB" else n["op"]
-        nd = helper.make_node(op, list(n["ins"]), [n["out"]], name="N_" + n["src"], domain=n["dom"], **attrs)
+        nd = helper.make_node(op, list(n["ins"]), [n["out"]] + ([n["out2"]] if n.get("out2") else []), name="N_" + n["src"], domain=n["dom"], **attrs)
         if n["ovl"]:
             nd.overload = n["ovl"]
         p = nd.metadata_props.add()
@@ -130,6 +130,21 @@ def make_rule(name):
         return P.RewriteRule(lambda op, x: op.Add(x, x), rep, name=name)
     if name == "fn":
         return P.RewriteRule(lambda op, x, y: op.Add(op.Neg(x), y), lambda op, x, y: op.NegAdd(x, y, _domain="custom"), name=name, as_function=True)
+    if name == "ext":      # the replacement lives in a domain the host model does not import (ext::MyRelu is a model-local function)
+        return P.RewriteRule(lambda op, x: op.Relu(x), lambda op, x: op.MyRelu(x, _domain="ext"), name=name)
+    if name in ("dag", "dagr"):   # as_function over a DAG pattern: the interior value a is used twice
+        def dpat(op, x):
+            a = op.Neg(x)
+            b = op.Relu(a)
+            return op.Add(a, b) if name == "dag" else op.Add(b, a)
+
+        return P.RewriteRule(dpat, lambda op, x: op.NegReluAdd(x, _domain="custom"), name=name, as_function=True)
+    if name == "dagm":     # as_function with two output nodes sharing an interior value
+        def mpat(op, x):
+            a = op.Neg(x)
+            return op.Relu(a), op.Identity(a)
+
+        return P.RewriteRule(mpat, lambda op, x: op.NegDual(x, _domain="custom", _outputs=2), name=name, as_function=True)
     if name == "pair":
         def pat(op, x, y):
             return op.Sub(x, y), op.Add(x, y)
@@ -162,7 +177,7 @@ def abs_graph(g, is_function=False):
         order = {"then_branch": 0, "else_branch": 1, "body": 0}
         subs.sort(key=lambda s: order.get(s[0], 9))
         md = {p.key: p.value for p in n.metadata_props}
-        return {"op": n.op_type, "dom": n.domain, "ovl": n.overload, "ins": list(n.input), "out": (list(n.output) + [""])[0], "nout": len(n.output),
+        return {"op": n.op_type, "dom": n.domain, "ovl": n.overload, "ins": list(n.input), "out": (list(n.output) + [""])[0], "out2": (list(n.output) + ["", ""])[1], "nout": len(n.output),
                 "subs": [s[1] for s in subs], "src": md.get("src", ""), "rule": md.get(RULE_TAG, "")}
 
     if is_function:
@@ -221,6 +236,11 @@ def iso_graph(sg, rg, env, why, where):
         for j, (ss, rs) in enumerate(zip(sn["subs"], rn["subs"])):
             ok = iso_graph(ss, rs, env, why, f"{where}/{sop}{k}.{j}") and ok
         ok = bind(sn["out"], rn["out"], f"node {k} output") and ok
+        if bool(sn.get("out2")) != bool(rn.get("out2")):
+            why.append(f"{where}: node {k}: second output {sn.get('out2')!r} vs {rn.get('out2')!r}")
+            ok = False
+        elif sn.get("out2"):
+            ok = bind(sn["out2"], rn["out2"], f"node {k} second output") and ok
         if (sn["src"], sn["rule"]) != (rn["src"], rn["rule"]):
             why.append(f"{where}: node {k} metadata src/rule {sn['src']}/{sn['rule']} vs {rn['src']}/{rn['rule']}")
             ok = False
@@ -291,7 +311,7 @@ def strict_name_clash(am):
     """mirror of Rewrite!ScopedSSA on an abstract model: a name defined twice in a graph, or a body name that some
     enclosing graph defines anywhere (also later)"""
     def walk(g, outer):
-        own = list(g["ins"]) + [i["name"] for i in g["inits"]] + [n["out"] for n in g["nodes"] if n["out"]]
+        own = list(g["ins"]) + [i["name"] for i in g["inits"]] + [o for n in g["nodes"] for o in (n["out"], n.get("out2")) if o]
         if len(set(own)) != len(own):
             return next(x for x in own if own.count(x) > 1)
         hit = set(own) & outer
@@ -319,6 +339,8 @@ def live_srcs(mj):
     def collect(gj):
         for n in gj["nodes"]:
             prod[n["out"]] = n
+            if n.get("out2"):
+                prod[n["out2"]] = n
             need = list(n["ins"])
             for s in n["subs"]:
                 collect(s)
@@ -435,7 +457,8 @@ def run_case(c):
     matched = {s for a in c["matched"] for s in a["srcs"]}
     live = live_srcs(c["orig"])
     real_nodes = [n for g in [ra["graph"]] + [f["graph"] for f in ra["funcs"]] for n in all_nodes(g)]
-    for g in [c["orig"]["graph"]] + [f["graph"] for f in c["orig"]["funcs"]]:
+    kept_fids = {tuple(f["fid"]) for f in ra["funcs"]}
+    for g in [c["orig"]["graph"]] + [f["graph"] for f in c["orig"]["funcs"] if tuple(f["fid"]) in kept_fids]:   # (unused functions go with the clean-up)
         for n in all_nodes(g):
             if n["src"] in matched or n["src"] not in live:
                 continue
@@ -633,7 +656,8 @@ def run(ctx: core.Ctx):
                     "rule set; distinct by (rules, commute, host model); non-trivial = the model applies at least one rule")
     ctx.assumptions += [
         "values are FLOAT scalars holding small integers; equivalence is judged on the 8 inputs of Rewrite!InputSeq (a in {-2,3}, b in {-1,5}, c in {T,F})",
-        "generated rules: negneg, keep(remove_nodes=False), relurelu, mul1, subneg, addsum, dbl(new initializer), fn(as_function), pair(two output nodes); "
+        "generated rules: negneg, keep(remove_nodes=False), relurelu, mul1, subneg, addsum, dbl(new initializer), fn(as_function), pair(two output nodes), "
+        "ext(replacement in a domain the host does not import), dag/dagr(as_function over a DAG pattern with a shared interior value), dagm(as_function, two outputs); "
         "replacement = pattern by construction and not an instance of the pattern",
         "a rule that creates initializers is declined inside a function by design (documented TODO): not counted as missing progress",
         "pattern matches do not cross graph boundaries (documented restriction of the matcher)",
